@@ -985,6 +985,45 @@ def gstyle_rule(rep, mod):
              None if not bad else 'the exponent-form switch disagrees with ISO C for: ' + '; '.join(bad))
 
 
+def gprec_rule(rep, mod, runs):
+    """R-GSTYLE (effective precision of %g, ISO C 7.21.6.1p8: "Let P equal the precision if nonzero, 6 if the precision is
+    omitted, or 1 if it is zero"): in the %g family the value the exponent is compared with (X >= P) is at least 1 for every
+    precision the parser can hand over - taken from the integer ranges the interval interpretation of print_f proved for
+    that family.  With P = 0, "%.0g" of 1.0 chooses the exponent form ("1e+00" instead of "1")."""
+    f = mod.fn(FN)
+    if 'g' not in runs:
+        raise AnalysisBroken('%s: the %%g family was not interpreted' % FN)
+    eps = set()
+    for (L, cell, st_, c) in digit_loops(f):
+        ai = f.inst_of(fstrip(f, c.ops[0]))
+        if ai is not None and ai.op == 'call' and (ai.callee or '').replace('llvm.', '').startswith('fabs'):
+            eps.add(cell.id)
+    if len(eps) != 1:
+        raise AnalysisBroken('%s: exponent cell not identified' % FN)
+    ep = eps.pop()
+    found = 0
+    for i in f.all_insts():
+        if i.op != 'fcmp' or i.pred[1:] not in ('lt', 'le', 'gt', 'ge'):
+            continue
+        cells = [cell_of_load(f, o) for o in i.ops]
+        side = [k for k in (0, 1) if cells[k] is not None and cells[k].id == ep]
+        if len(side) != 1:
+            continue
+        other = f.inst_of(fstrip(f, i.ops[1 - side[0]]))
+        if other is None or other.op not in ('sitofp', 'uitofp') or other.ops[0].k != 'inst':
+            continue
+        v = runs['g'].fi.ranges.get(('i', other.ops[0].id))
+        if v is None or not hasattr(v, 'lo'):
+            raise AnalysisBroken('%s: no range recorded for the precision the exponent is compared with' % FN)
+        found += 1
+        ok = v.lo is not None and v.lo >= 1
+        rep.inst('R-GSTYLE', FN, '%g: the precision the exponent is compared with is at least 1', ok, i.where(),
+                 None if ok else 'in the %%g family the exponent is compared with a precision that can be %s: ISO C takes a '
+                 'precision of zero as 1, so that "%%.0g" of 1.0 is "1" and not "1e+00"' % v.lo, fact={'range': [v.lo, v.hi]})
+    if not found:
+        raise AnalysisBroken('%s: comparison of the exponent with the precision not found' % FN)
+
+
 def renorm_rule(rep, mod, anchors):
     """R-RENORM (exponent form, ISO C 7.21.6.1p8 "one digit before the decimal-point character"): every test that decides
     whether the integer part is divided by the base once more - the normalisation loop before the rounding and the fix-up
@@ -1150,8 +1189,9 @@ def run(rep, repo, tier):
     gstyle_rule(rep, mod)
     renorm_rule(rep, mod, anchors)
     rep.floor('R-RENORM', 2)
-    rep.floor('R-GSTYLE', 3)
+    rep.floor('R-GSTYLE', 4)
     runs, facts = fi_rules(rep, mod, T, fams)
+    gprec_rule(rep, mod, runs)
     sx_rules(rep, mod, T, fams, facts)
     for rule, n in (('R-CONVSET', 36), ('R-FVAARG', 3), ('R-LOOPVAR', 10), ('R-UPPER', 4), ('R-PREFIX', 1), ('R-ROUND', 5),
                     ('R-GSHAPE', 2), ('R-FTERM', 12), ('R-FBUF', 6), ('R-FPCAST', 6), ('R-FCHARS', 3), ('R-LDBL', 3),
